@@ -1,10 +1,10 @@
 CONSTANTS
-  W = 2
-  H = 2
-  Traps = {}
+  W = 4
+  H = 3
+  Traps = {6}
   Complement <- StdComplement
-  Roots <- Roots22
-  MaxTurns = 9
+  Roots <- Roots43
+  MaxTurns = 2
   StopAtResult = FALSE
 SPECIFICATION Spec
 CONSTRAINT TurnBound
